@@ -23,6 +23,9 @@ def u8_local(f, l):
     return f.local_ty(l) in ("u8", "&u8", "&&u8")
 
 
+SEPARATORS = [9, 10, 32]
+
+
 def run(ctx):
     prog = ctx.prog
     _PROG["prog"] = prog
@@ -277,7 +280,7 @@ def run(ctx):
         elif o.k == "bin" and o.a == "Eq" and any(c.get("v") == 10 for c in o.consts()):
             # the compared byte is the current input byte and we are in the separator arm
             gs = prim.dominating_guards(ws, d[0])
-            sep = any(gd["bool"] is True and gd["pred"].strip().k == "call" and gd["pred"].strip().a["name"] == "is_ascii_whitespace" for gd in gs)
+            sep = any(ws.blocks[gd["bb"]].term.j.get("discr_ty") == "u8" and sorted(l for l in gd["labels"] if isinstance(l, int)) == SEPARATORS and len(gd["labels"]) == len(SEPARATORS) for gd in gs)
             kinds.append("newline-test" if sep else "newline-test-outside-separator-arm")
         else:
             kinds.append("other:" + o.fmt())
@@ -309,9 +312,19 @@ def run(ctx):
         if t.k == "switch" and t.j.get("discr_ty") == "u8":
             consts |= {v for v, _ in t.j["arms"]}
     sep = [(b, t) for b, t in ws.calls() if t.j.get("callee_name") in ("is_ascii_whitespace", "is_whitespace", "is_ascii_control", "is_ascii_punctuation", "is_ascii_graphic")]
-    ctx.ob("R6", "special-bytes", consts == {34, 39, 92}, "bytes dispatched on in default mode: %s; oracle {34 '\"', 39 \"'\", 92 '\\\\'}" % sorted(consts), fn=ws, how="switch table")
-    ok = len(sep) == 1 and sep[0][1].j.get("callee_name") == "is_ascii_whitespace" and "u8" in (sep[0][1].j.get("callee_inst") or "")
-    ctx.ob("R6", "separator-predicate", ok, "the unquoted separator test must be u8::is_ascii_whitespace on the raw byte (a multi-byte character must never be cut); found %s" % [t.j.get("callee_inst") for _, t in sep], fn=ws, how="call sites")
+    ctx.ob("R6", "special-bytes", consts == {34, 39, 92} | set(SEPARATORS), "bytes dispatched on in default mode: %s; oracle: the quoting bytes 34 '\"', 39 \"'\", 92 backslash and the separators 32 blank, 9 tab, 10 newline — carriage return, form feed and vertical tab are ordinary characters" % sorted(consts), fn=ws, how="switch table")
+    ctx.ob("R6", "separator-predicate", not sep, "the unquoted separator test is a comparison of the raw byte with blank, tab and newline (a multi-byte character is never cut, no character class wider than that applies); character-class predicates called: %s" % [t.j.get("callee_inst") for _, t in sep], fn=ws, how="call sites")
+    # a quote cannot span lines: inside a quote a newline is the unterminated-quote error, at end of input as well
+    qerr = 0
+    for b in ws.reachable():
+        for st in ws.blocks[b].stmts:
+            if st.rv is not None and st.rv.k == "agg" and st.rv.j.get("adt") == "std::result::Result" and st.rv.j.get("variant") == "Err" and st.lhs.is_local() and st.lhs.local == 0:
+                gs = prim.dominating_guards(ws, b)
+                in_quote = any(any(y.k == "variant" and str(y.a) == "Quote" for y in gd["pred"].walk()) or (prim.discr_type_of_switch(ws, gd["bb"]) or "").endswith("Escape") for gd in gs)
+                nl = any(ws.blocks[gd["bb"]].term.j.get("discr_ty") == "u8" and gd["labels"] == [10] for gd in gs)
+                if in_quote and nl:
+                    qerr += 1
+    ctx.ob("R6", "quote-ends-at-newline", qerr >= 1, "an Err return under (inside a quote, byte == newline): %d site(s); oracle: a quote left open at the end of a line is reported, it does not swallow the newline" % qerr, fn=ws, how="dominating guards")
     # the separator test applies only outside quotes/escapes: dominated by escape == None
     for b, t in sep:
         gs = prim.dominating_guards(ws, b)
